@@ -64,7 +64,10 @@ def run_streams(ctx, kinds, exh_narrow, exh_wide, sim_num, sim_depth, rich, n_ra
     concs = concs_for(ctx, n_random_concs)
     cpath = os.path.join(ctx.out, "concs.json")
     json.dump(concs, open(cpath, "w"))
-    mism, summary, _ = run_bin(bindir, "streams", ["replay", allb, cpath] + (["--structure"] if structure_only else []) + (["--any-error-id"] if any_error_id else []), timeout=3000)
+    if features is None:
+        mism, summary, _ = vlib.run_bin_checked_too("streams", ["replay", allb, cpath] + (["--structure"] if structure_only else []) + (["--any-error-id"] if any_error_id else []), timeout=3000)
+    else:
+        mism, summary, _ = run_bin(bindir, "streams", ["replay", allb, cpath] + (["--structure"] if structure_only else []) + (["--any-error-id"] if any_error_id else []), timeout=3000)
     ctx.evaluations += summary.get("replays", 0)
     ctx.traces += summary.get("behaviours", 0)
     ctx.extra.setdefault("replay_summaries", []).append(summary)
@@ -104,7 +107,7 @@ def replay_streams(pid, v):
     open(bp, "w").write(json.dumps(v["behaviour"]) + "\n")
     cp = os.path.join(out, "replay_one_concs.json")
     json.dump([v["conc"]], open(cp, "w"))
-    bindir = build_harness(["streams"], v.get("features"), v.get("tag", "default"))
+    bindir = build_harness(["streams"], v.get("features"), v.get("tag", "default"), checked=bool(v.get("mismatch", {}).get("build")))
     mism, summary, _ = run_bin(bindir, "streams", ["replay", bp, cp] + (["--structure"] if v.get("structure_only") else []) + (["--any-error-id"] if v.get("any_error_id") else []))
     return mism[0] if mism else None
 
